@@ -35,9 +35,12 @@ def gen(ctx, name, streams, seqs, vals, ops, lst):
     return scs
 
 
-def run():
-    ctx = Ctx("C07a")
+def run(ctx=None):
+    part = ctx is not None
+    if ctx is None:
+        ctx = Ctx("C07a")
     ctx.harness_cmd = "vhsentstorage"
+    ctx.vh = None
     ctx.assumptions += [
         "Clear(s) is specified as 'forget stream s only' (List(s) reports an unknown stream afterwards, as for a never-used stream) and never fails",
         "the store is exercised sequentially (every call is one critical section of the same mutex); that Clear swaps the map under the "
@@ -75,6 +78,10 @@ def run():
     trace = ctx.run_scenarios(scs, "c07a", par=8)
     verdicts, r = ctx.validate(trace, "MonC07a", consts={"NSeqs": 9, "NVals": 9, "MaxOps": 99, "GenList": "TRUE"}, timeout=1500)
     ctx.judge(scs, trace, verdicts)
+    if part:
+        ctx.harness_cmd = "vh"
+        ctx.vh = None
+        return len(scs)
     ctx.finish(rule="scenarios = every maximal path (Store/Remove/Clear[/List] on every stream, sequence number and value) of the generator "
                     "configurations of SentStorage.tla, replayed lock-step on iscp.inmemSentStorage and iscp.inmemSentStorageNoPayload; "
                     "after every op the return value and List() of every stream are compared with the model and with the lists before the op; "
